@@ -1,6 +1,6 @@
 #!/bin/bash
 # collect_seed.sh <id> : verify a sub-agent's seeded change in /tmp/wt/<id> (demo fails with it, passes without) and store it under /verif/seeded/<id>
-id=$1; wt=/tmp/wt/$id; out=/verif/seeded/$id
+id=$1; base=${2:-/tmp/wt}; sfx=${3:-}; wt=$base/$id; out=/verif/seeded/$id$sfx
 cd $wt || exit 2
 git diff -- src > /tmp/collect-$id.diff
 if [ ! -s /tmp/collect-$id.diff ]; then echo "$id: no source change in worktree"; exit 2; fi
